@@ -45,7 +45,8 @@ impl Format<[u8; 2]> for IdFormat {
         Ok(val.to_vec())
     }
     fn from_slice(&self, slice: &[u8]) -> Result<[u8; 2], BadLen> {
-        if slice.len() == 2 {
+        // like the real decoders (rmp_serde ignores trailing bytes) the format is lenient about what follows
+        if slice.len() >= 2 {
             Ok([slice[0], slice[1]])
         } else {
             Err(BadLen)
@@ -99,9 +100,24 @@ fn c27_multiformat_parse_total() {
     let n: usize = kani::any();
     kani::assume(n <= 6);
     let r = parse_multiformat_bytes(&bytes[..n]);
-    if let Ok((_, rest)) = &r {
+    if let Ok((codec, rest)) = &r {
         kani::assert(rest.len() < n, "C27: at least one prefix byte consumed, rest is a suffix of the input");
-        kani::assert(n - rest.len() <= 5, "C27: a u32 varint has at most 5 bytes");
+        let used = n - rest.len();
+        kani::assert(used <= 5, "C27: a u32 varint has at most 5 bytes");
+        // the tag that was read must be the tag that is there: re-encoding the codec gives back exactly the
+        // consumed prefix, otherwise a payload tagged with ANOTHER codec (one that does not even fit u32)
+        // would be read as this one
+        let mut buf = varint_encode::u32_buffer();
+        let enc = varint_encode::u32(*codec, &mut buf);
+        let mut same = enc.len() == used;
+        let mut i = 0;
+        while i < used && i < enc.len() {
+            if enc[i] != bytes[i] {
+                same = false;
+            }
+            i += 1;
+        }
+        kani::assert(same, "C27: the codec read from a prefix is the codec that prefix encodes (no bits dropped)");
     }
     let d = decode_multiformat::<[u8; 2], IdFormat>(&bytes[..n], kani::any(), &IdFormat);
     kani::cover!(r.is_ok(), "parsed");
